@@ -194,6 +194,27 @@ def tlc(ctx, module, cfg=None, workers=None, env=None, timeout=1800, extra=(), h
     return res
 
 
+def tlaps(ctx, module, timeout=900):
+    """Check the proofs of spec/<module>.tla with the TLA+ proof system (unbounded results)."""
+    run = ctx.path("tlaps-" + module)
+    shutil.rmtree(run, ignore_errors=True)
+    os.makedirs(run)
+    for f in os.listdir(SPEC):
+        if f.endswith(".tla"):
+            shutil.copy(os.path.join(SPEC, f), os.path.join(run, f))
+    t = time.time()
+    try:
+        r = subprocess.run(["tlapm", "--threads", "8", "--cleanfp", module + ".tla"], cwd=run, capture_output=True,
+                           text=True, timeout=timeout)
+    except (subprocess.TimeoutExpired, FileNotFoundError) as e:
+        raise Infra("tlapm did not finish on %s: %s" % (module, e))
+    m = re.search(r"All (\d+) obligations? proved", r.stdout + r.stderr)
+    if not m:
+        raise Infra("tlapm did not prove %s:\n%s" % (module, (r.stdout + r.stderr)[-2000:]))
+    ctx.notes.setdefault("tlaps", {})[module] = dict(obligations=int(m.group(1)), wall_s=round(time.time() - t, 1))
+    log("[tlaps] %s: all %s obligations proved, %.1fs" % (module, m.group(1), time.time() - t))
+
+
 def design_check(ctx, module, cfg=None, workers=8, **kw):
     """Model-check a design config; an invariant violation on the model alone is my bug (exit 2)."""
     r = tlc(ctx, module, cfg, workers=workers, **kw)
